@@ -772,7 +772,7 @@ def eval_tree(e, env):
         return eval_tree(e["args"][0], env)          # std::string("literal")
     # a rule may model selected calls (configuration look-ups with a default, string -> number conversions, ...): env["$call"](node, env)
     h = env.get("$call") if isinstance(env, dict) else None
-    if h is not None and k == "call":
+    if h is not None and k in ("call", "construct"):
         return h(e, env)
     raise Unknown(t)
 
